@@ -145,12 +145,23 @@ theorem listJson_dry (h : cfg.listDry = true) (now : Nat) (ts : List Task) (s : 
     rw [ih]
     simp
 
-theorem runBody_dry (h : cfg.dryMkdir = false) (i : Nat) (t : Task) (e : Env) (s : State) :
+/-- **the dry body** of the repaired wiring: no state change, no command — also when a `task:`
+call fails (its precondition does not hold), which is the one way a dry body fails and the one
+place where the tree before TS4 reached `statusOnError` in a dry run -/
+theorem runBody_dry (h : cfg.dryMkdir = false) (h3 : cfg.dryOnError = false) (i : Nat) (t : Task) (e : Env) (s : State) :
     (runBody cfg H pr i t true e s).1 = s ∧ (runBody cfg H pr i t true e s).2.ran = [] := by
-  simp [runBody, h, Obs.quiet]
+  simp only [runBody, h, h3, Obs.quiet, Bool.not_true, Bool.and_false, Bool.false_and, Bool.false_eq_true, if_false, if_true]
+  split <;> exact ⟨rfl, rfl⟩
+
+/-- what the dry body reports: `failed` iff some call's precondition does not hold -/
+theorem runBody_dry_exit (h : cfg.dryMkdir = false) (h3 : cfg.dryOnError = false) (i : Nat) (t : Task) (e : Env) (s : State) :
+    (runBody cfg H pr i t true e s).2.exit = if t.cmds.any (fun c => c.blocked s.files) then .failed else .ok := by
+  simp only [runBody, h, h3, Obs.quiet, Bool.not_true, Bool.and_false, Bool.false_and, Bool.false_eq_true, if_false, if_true]
+  split <;> rfl
 
 /-- every read-only invocation of the repaired wiring leaves the state alone and runs nothing -/
-theorem invoke_readOnly (h1 : cfg.listDry = true) (h2 : cfg.dryMkdir = false) (i : Nat) (m : Mode) (e : Env) (s : State)
+theorem invoke_readOnly (h1 : cfg.listDry = true) (h2 : cfg.dryMkdir = false) (h3 : cfg.dryOnError = false)
+    (i : Nat) (m : Mode) (e : Env) (s : State)
     (hm : m.readOnly = true) :
     (invoke cfg H pr i m e s).1 = s ∧ (invoke cfg H pr i m e s).2.ran = [] := by
   cases m with
@@ -169,7 +180,7 @@ theorem invoke_readOnly (h1 : cfg.listDry = true) (h2 : cfg.dryMkdir = false) (i
     · split
       · simp
       · simp only [isUpToDate_dry]
-        exact runBody_dry cfg H pr h2 i _ e s
+        exact runBody_dry cfg H pr h2 h3 i _ e s
 
 
 /-! ### unfolding `invoke` -/
@@ -249,14 +260,15 @@ theorem runBody_ok (i : Nat) (t : Task) (e : Env) (s : State)
     · rename_i hl; simp [hl] at h
     · rename_i hl; simp [hl] at h
 
-theorem cmdLoop_clean (e : Env) (hk : e.killAt = none) (hf : e.failAt = none) (cs : List Cmd) (k : Nat) (fs : FS)
-    (ran : List Nat) :
+theorem cmdLoop_clean (e : Env) (hk : e.killAt = none) (hf : e.failAt = none) (cs : List Cmd)
+    (hn : ∀ c ∈ cs, c.need = none) (k : Nat) (fs : FS) (ran : List Nat) :
     (cmdLoop e cs k fs ran).2.1 = ran ++ List.range' k cs.length ∧ (cmdLoop e cs k fs ran).2.2 = .done := by
   induction cs generalizing k fs ran with
   | nil => simp [cmdLoop]
   | cons c cs ih =>
-    simp only [cmdLoop, hk, hf]
-    have := ih (k + 1) (applyWrites fs c.writes e.now) (ran ++ [k])
+    have hc : c.blocked fs = false := by simp [Cmd.blocked, hn c (by simp)]
+    simp only [cmdLoop, hk, hf, hc]
+    have := ih (fun x hx => hn x (by simp [hx])) (k + 1) (applyWrites fs c.writes e.now) (ran ++ [k])
     simp only [reduceCtorEq, if_false]
     rw [this.1, this.2]
     simp [List.range'_succ]
